@@ -277,7 +277,23 @@ def reference_measure(spec, f, which=0):
     return kruskal_h([[float(c) for v, c in zip(x, y) if v == cat] for cat in cats])
 
 
+def identical_columns(spec, f, g):
+    """the two columns carry exactly the same information: equal values (quantitative), or equal up to
+    a renaming of the categories (qualitative)"""
+    if f in spec['quanti'] and g in spec['quanti']:
+        a, b = spec['quanti'][f], spec['quanti'][g]
+        return all((x is None) == (y is None) for x, y in zip(a, b)) and \
+            (all(x == y for x, y in zip(a, b) if x is not None) or all(x == -y for x, y in zip(a, b) if x is not None)) and \
+            len(set(v for v in a if v is not None)) > 1
+    if f in spec['quali'] and g in spec['quali']:
+        a, b = spec['quali'][f], spec['quali'][g]
+        return len(set(zip(a, b))) == len(set(a)) == len(set(b)) and len(set(a)) > 1
+    return False
+
+
 def reference_assoc(spec, f, g):
+    if identical_columns(spec, f, g):
+        return 1.0
     if f in spec['quanti'] and g in spec['quanti']:
         use_pearson = spec['measures'] == 'alt'
         r = (pearson if use_pearson else spearman)(spec['quanti'][f], spec['quanti'][g])
@@ -336,7 +352,12 @@ def case_of_spec(spec, cid, meta):
         cm = code_measures(sel_obj, spec, X, y) if exc is None else {}
     except Exception:
         cm = {}
-    a = [[scaled(reference_assoc(spec, f, g)) if f != g else 0 for g in feats] for f in feats]
+    def assoc_scaled(f, g):
+        v = scaled(reference_assoc(spec, f, g))
+        if v == SCALE and not identical_columns(spec, f, g):
+            v = SCALE - 1
+        return v
+    a = [[assoc_scaled(f, g) if f != g else 0 for g in feats] for f in feats]
     groups = []
     for gi, names in enumerate((list(spec['quanti']), list(spec['quali']))):
         if names:
